@@ -71,23 +71,25 @@ T = {
 
 # spaces added while the checks were strengthened against independently seeded defects (DESIGN.md section 11.6)
 ADD = {
- "C01": " Producer -> consumer chains for every register-writing mnemonic; boundary memory words in every seed's slice.",
- "C02": " Producer -> consumer chains, faulting instructions with independent neighbours.",
- "C03": " Alphabets contain reset(), alias spellings of one address (a, a +- 2^32) and, in the 'wordz' configurations, stores of 0 over a sparsely preloaded backing store; the state key keeps zero / non-zero of the counters and is taken before the oracle observes. Declared-data clause: data segments with every declaration kind loaded element by element under 9 cache configurations, cached vs. uncached.",
- "C04": " Plus: label names that are mnemonics, all sequences of by-name pseudo-instructions, programs that fill the instruction memory exactly (with branches to labels at both ends of their reach), by-name elements on another 4 KiB page than their array, and differentials between FRESH interpreters (the same text assembled after the TOY assembler / other simulations were active vs. in a pristine interpreter).",
- "C05": " Rotations: data-cache configurations, data memories whose valid range starts elsewhere, loads over an earlier program and again after a rejected one.",
- "C06": " Every program is driven by whole steps, single cycles, explicit half cycles and in alternation with a second independent simulation; fresh-interpreter differentials (run after machines of another size / the other ISA were active).",
- "C09": " Preload clause (load_program leaves counters and cycles untouched, first counted access is a cold miss); reload clause (load X; k steps; load Y; run: d(cycles) = uncached + penalty x misses in each phase); statistics and cache-table calls as BFS operations; programs with an ecall are also run with print-string registers preset.",
- "C10": " Plus every history up to length 4-5 (7) over the operations of TWO policy objects side by side (all pairs of kind and size), each history on freshly executed class definitions; the observers are BFS operations.",
- "C11": " Programs filling the instruction memory; reload histories incl. a rejected program; histories in which the statistics are asked for at two points only (all k, j).",
- "C12": " The backing store is read word by word from the backing Memory object; both tables are compared with it; table calls are BFS operations ('wordz' configurations with stores of 0 and equal values over a sparse preload).",
- "C14": " Views while executing: every mnemonic with wide / x0 operands and boundary immediates executed step by step in both modes; listing, pipeline-view text and error text after every step must assemble to the stored instruction and the listing must re-assemble to itself.",
+ "C08": " Operand sweep of C01/C02 between independent marker instructions with the interlock off vs. single-cycle mode; long runs.",
+ "C07": " Long runs (up to 5 700 cycles) in lock-step with the model; the penalty clause also requires the step-indexed retire schedule under caches and penalties to equal the uncached one.",
+ "C01": " Producer -> consumer chains for every register-writing mnemonic; boundary memory words in every seed's slice. With caches: every program over the memory alphabet in single-cycle mode under six data / instruction-cache configurations vs. the golden model. Long runs (hundreds / thousands of steps).",
+ "C02": " Producer -> consumer chains, faulting instructions with independent neighbours. With caches: five-stage vs. single-cycle mode under the SAME data / instruction caches, programs over the memory alphabet. Long runs (straight-line code up to 1100 instructions, counted loops up to 300 iterations).",
+ "C03": " Alphabets contain reset(), alias spellings of one address (a, a +- 2^32) and, in the 'wordz' configurations, stores of 0 over a sparsely preloaded backing store; the state key keeps zero / non-zero of the counters and is taken before the oracle observes. Declared-data clause: data segments with every declaration kind loaded element by element under 9 cache configurations, cached vs. uncached. Deep paths: per configuration (up to 16 / 32 ways) one pair-cover path over all non-crossing operations, oracle after every step. Programs with an ecall are also run with print-string registers preset; a store / load through a negative effective address.",
+ "C04": " Plus: label names that are mnemonics, all sequences of by-name pseudo-instructions, programs that fill the instruction memory exactly (with branches to labels at both ends of their reach), by-name elements on another 4 KiB page than their array, and differentials between FRESH interpreters (the same text assembled after the TOY assembler / other simulations were active vs. in a pristine interpreter). Every declaration kind directly behind a variable that ends off a word boundary; every pair of texts assembled one behind the other (load_program, and the assembler handed the same state twice) vs. a fresh state.",
+ "C05": " Rotations: data-cache configurations, data memories whose valid range starts elsewhere, loads over an earlier program and again after a rejected one. li programs start from non-zero patterns in every register.",
+ "C06": " Every program is driven by whole steps, single cycles, explicit half cycles and in alternation with a second independent simulation; fresh-interpreter differentials (run after machines of another size / the other ISA were active). Reload clause: load X; k steps; [rejected load;] load Y; run on one simulation vs. a fresh simulation (Y == X included).",
+ "C09": " Preload clause (load_program leaves counters and cycles untouched, first counted access is a cold miss); reload clause (load X; k steps; load Y; run: d(cycles) = uncached + penalty x misses in each phase); statistics and cache-table calls as BFS operations; programs with an ecall are also run with print-string registers preset. Deep paths (pair-cover sequences, hundreds of hits and misses, up to 16 / 32 ways).",
+ "C10": " Plus every history up to length 4-5 (7) over the operations of TWO policy objects side by side (all pairs of kind and size), each history on freshly executed class definitions; the observers are BFS operations. Configured-policy clause: every pairing of policies for the instruction and the data cache of one simulation (each enabled or merely configured; 3 / 4 / 8 ways), tags and replacement_status vs. the reference of the cache's own configuration.",
+ "C11": " Programs filling the instruction memory; reload histories incl. a rejected program; histories in which the statistics are asked for at two points only (all k, j). Runs with cache table and statistics looked at after every step (3+ ways); the largest geometries (one way = the whole instruction memory) with blocks 2 / 4 / 8 KiB apart fetched alternately.",
+ "C12": " The backing store is read word by word from the backing Memory object; both tables are compared with it; table calls are BFS operations ('wordz' configurations with stores of 0 and equal values over a sparse preload). Deep paths; program clause: the invariant after every single-cycle step and at the end of five-stage runs of every program over the memory alphabet (logical contents = golden model).",
+ "C14": " Views while executing: every mnemonic with wide / x0 operands and boundary immediates executed step by step in both modes; listing, pipeline-view text and error text after every step must assemble to the stored instruction and the listing must re-assemble to itself. The listing of every batch program (thousands of instructions of one mnemonic differing in one operand) is checked line by line.",
  "C16": " The baseline is observed by one separate run per inspection function; probes in the deviation step, one step later and at the end; corpus programs with a script of later loads; inspected vs. uninspected runs in separate fresh interpreters, observed after every step.",
- "C17": " Table histories (writes, reads, resets, table calls) on uncached and cached simulations (table vs. the backing store's own cells); every word in the TOY instruction register.",
- "C18": " Operations include reset(), 'a simulation of the other architecture is created next to this memory', and 'the owning simulation loads a rejected program, then one without data'; the public cell table is compared after every transition and the first observation pins old-or-new cells.",
- "C19": " The assembler space is repeated on simulations with other memory sizes; every split of a small memory into instructions + data (exact fit); fresh-interpreter differentials (after a machine of another size / the RISC-V assembler / an earlier program with the same names).",
- "C13": " Every configuration is explored twice: plainly and with every inspection function called after every operation.",
- "C15": " Replacement alphabet includes non-ASCII digits, letters that match mnemonics only through unicode case folding, string literals above U+00FF.",
+ "C17": " Table histories (writes, reads, resets, table calls) on uncached and cached simulations (table vs. the backing store's own cells); every word in the TOY instruction register. TOY programs executed half-cycle by half-cycle: accu / pc / ir displays vs. the reference two-phase machine.",
+ "C18": " Operations include reset(), 'a simulation of the other architecture is created next to this memory', and 'the owning simulation loads a rejected program, then one without data'; the public cell table is compared after every transition and the first observation pins old-or-new cells. Stores also pass plain ints and value objects of a narrower fixed-width type.",
+ "C19": " The assembler space is repeated on simulations with other memory sizes; every split of a small memory into instructions + data (exact fit); fresh-interpreter differentials (after a machine of another size / the RISC-V assembler / an earlier program with the same names). Every third generated text is decorated with comments (also ones containing '#'), blank lines, tabs; reload clause (placement right after load X; k steps; load Y).",
+ "C13": " Every configuration is explored twice: plainly and with every inspection function called after every operation. Behind a run-time fault that leaves has_started false, loads are still offered and compared with a fresh load.",
+ "C15": " Replacement alphabet includes non-ASCII digits, letters that match mnemonics only through unicode case folding, string literals above U+00FF. Four fault kinds at every token are repeated with CRLF and CR line endings.",
 }
 
 NA_REASON = "check not built yet at this commit (work in progress; the technique applies, see DESIGN.md)"
